@@ -12,10 +12,10 @@ Lemma opt_meets mk o : meets (opt_val mk o) (sopt mk o).
 Proof. destruct o; reflexivity. Qed.
 
 Theorem parse_int_meets s : meets (impl_parse_int s) (spec_parse_int s).
-Proof. unfold impl_parse_int, spec_parse_int. destruct (strip_0x s); rewrite from_str_radix_spec; apply opt_meets. Qed.
+Proof. unfold impl_parse_int, spec_parse_int. destruct (prefix_0x s); rewrite from_str_radix_spec; apply opt_meets. Qed.
 
 Theorem parse_bigint_meets s : meets (impl_parse_bigint s) (spec_parse_bigint s).
-Proof. unfold impl_parse_bigint, spec_parse_bigint. destruct (strip_0x s); rewrite from_str_radix_spec; apply opt_meets. Qed.
+Proof. unfold impl_parse_bigint, spec_parse_bigint. destruct (prefix_0x s); rewrite from_str_radix_spec; apply opt_meets. Qed.
 
 Theorem parse_radix_meets mk lo hi s r : meets (impl_parse_radix mk lo hi s r) (spec_parse_radix mk lo hi s r).
 Proof.
@@ -31,9 +31,9 @@ Proof.
   cbn [orb andb]. rewrite from_str_radix_spec. apply opt_meets.
 Qed.
 
-(* the arm as it was (prefix dropped whatever the radix) agrees with the specification whenever the text has
-   no 0x prefix or the radix is 16 *)
-Theorem parse_radix_head_meets mk lo hi s r : (strip_0x s = None \/ r = 16) ->
+(* the arm as it was (prefix dropped whatever the radix, a sign read after it) agrees with the specification
+   whenever the text has no 0x prefix, or the radix is 16 and no sign follows the prefix *)
+Theorem parse_radix_head_meets mk lo hi s r : (strip_0x s = None \/ (r = 16 /\ prefix_0x s = strip_0x s)) ->
   meets (impl_parse_radix_head mk lo hi s r) (spec_parse_radix mk lo hi s r).
 Proof.
   intros H. unfold impl_parse_radix_head, spec_parse_radix.
@@ -46,7 +46,7 @@ Proof.
   { apply Z.ltb_lt in B. replace (r <=? 36) with false by (symmetry; apply Z.leb_gt; lia). cbn. auto. }
   apply Z.ltb_ge in B. replace (r <=? 36) with true by (symmetry; apply Z.leb_le; lia).
   cbn [orb andb]. rewrite from_str_radix_spec.
-  destruct H as [H | ->]; [rewrite H | destruct (strip_0x s)]; apply opt_meets.
+  destruct H as [H | [-> H]]; [unfold prefix_0x; rewrite H | rewrite H; destruct (strip_0x s)]; apply opt_meets.
 Qed.
 
 Theorem parse_int_radix_meets s r : meets (impl_parse_int_radix s r) (spec_parse_int_radix s r).
@@ -67,7 +67,7 @@ Proof.
 Qed.
 
 Theorem parse_byte_meets s : meets (impl_parse_byte s) (spec_parse_byte s).
-Proof. unfold impl_parse_byte, spec_parse_byte. destruct (strip_0b s); rewrite from_str_radix_spec; apply opt_meets. Qed.
+Proof. unfold impl_parse_byte, spec_parse_byte. destruct (prefix_0b s); rewrite from_str_radix_spec; apply opt_meets. Qed.
 
 (* ------------------------------------------------------------------ digits_val = Digits *)
 Lemma digits_val_app r x y a :
@@ -239,23 +239,38 @@ Proof.
   replace (d =? 120)%N with false by (symmetry; apply N.eqb_neq; lia). rewrite andb_false_r. reflexivity.
 Qed.
 
+Lemma prefix_0x_dec z : prefix_0x (dec_of_Z z) = None.
+Proof. unfold prefix_0x. rewrite strip_0x_dec. reflexivity. Qed.
+
+(* the witnesses of the hunt: a sign between the prefix and the digits is no number; before the digits it is *)
+Example sign_after_prefix :
+  spec_parse_int [48; 120; 45; 49; 70]%N = SVal VNil /\ impl_parse_int [48; 120; 45; 49; 70]%N = Ok VNil /\        (* "0x-1F" *)
+  spec_parse_int_radix [48; 120; 43; 49; 70]%N 16 = SVal VNil /\ impl_parse_bigint_radix [48; 120; 43; 49; 70]%N 16 = Ok VNil /\  (* "0x+1F" *)
+  spec_parse_byte [48; 98; 43; 49]%N = SVal VNil /\ impl_parse_byte [48; 98; 43; 49]%N = Ok VNil /\                  (* "0b+1" *)
+  impl_parse_int_radix_head [48; 120; 45; 49; 70]%N 16 = Ok (VInt (-31)) /\                                            (* as it was *)
+  spec_parse_int [48; 120; 49; 70]%N = SVal (VInt 31) /\ spec_parse_int_radix [45; 49; 70]%N 16 = SVal (VInt (-31)).  (* "0x1F", "-1F" *)
+Proof. vm_compute. repeat split. Qed.
+
 (* law: parse_int (to_str n) = n, parse_bigint likewise, parse_byte (to_str b) = b *)
 Theorem parse_int_to_str z : in_i32 z = true -> impl_parse_int (dec_of_Z z) = Ok (VInt z).
 Proof.
   intros R. unfold in_i32 in R. apply andb_true_iff in R as [R1 R2]. apply Z.leb_le in R1, R2.
-  unfold impl_parse_int. rewrite strip_0x_dec, parse_dec; [reflexivity | unfold i32_min, i32_max; lia].
+  unfold impl_parse_int. rewrite prefix_0x_dec, parse_dec; [reflexivity | unfold i32_min, i32_max; lia].
 Qed.
 
 Theorem parse_bigint_to_str z : in_i128 z = true -> impl_parse_bigint (dec_of_Z z) = Ok (VBig z).
 Proof.
   intros R. unfold in_i128 in R. apply andb_true_iff in R as [R1 R2]. apply Z.leb_le in R1, R2.
-  unfold impl_parse_bigint. rewrite strip_0x_dec, parse_dec; [reflexivity | unfold i128_min, i128_max; lia].
+  unfold impl_parse_bigint. rewrite prefix_0x_dec, parse_dec; [reflexivity | unfold i128_min, i128_max; lia].
 Qed.
 
 Theorem parse_byte_to_str z : in_u8 z = true -> impl_parse_byte (bin_of_byte z) = Ok (VByte z).
 Proof.
   intros R. unfold in_u8 in R. apply andb_true_iff in R as [R1 R2]. apply Z.leb_le in R1, R2.
-  unfold impl_parse_byte, bin_of_byte. cbn [strip_0b N.eqb Pos.eqb andb].
+  unfold impl_parse_byte, bin_of_byte, prefix_0b. cbn [strip_0b N.eqb Pos.eqb andb unsigned_rest].
+  destruct (render_shape 2 (Z.to_N z)) as (c & t & E & C & _); [lia|].
+  replace (is_signed (render 2 (Z.to_N z))) with false
+    by (rewrite E; cbn [is_signed]; symmetry; apply orb_false_iff; split; apply N.eqb_neq; lia).
   rewrite <- (Z2N.id z) at 2 by lia. rewrite parse_rendered; [reflexivity | lia | rewrite Z2N.id; lia].
 Qed.
 
@@ -265,5 +280,5 @@ Proof.
   destruct (spec_parse_int (dec_of_Z z)) eqn:E; cbn in M.
   - congruence.
   - destruct M; discriminate.
-  - unfold spec_parse_int in E. destruct (strip_0x _); destruct (spec_numeral _ _ _ _ _); discriminate.
+  - unfold spec_parse_int in E. destruct (prefix_0x _); destruct (spec_numeral _ _ _ _ _); discriminate.
 Qed.
